@@ -131,6 +131,31 @@ class Engine(object):
         if msg not in self.notes:
             self.notes.append(msg)
 
+    def decide(self, st, cond):
+        """True / False if the path condition already determines `cond`, else None.
+        Used to prune If-branches of spec functions (sound: the resulting formula is only
+        ever used under the same path condition)."""
+        c = simp(cond)
+        if z3.is_true(c):
+            return True
+        if z3.is_false(c):
+            return False
+        if not getattr(self, 'prune_spec', True):
+            return None
+        key = (hash(tuple(f.get_id() for f in st.pc)), len(st.pc), c.get_id())
+        cache = self.__dict__.setdefault('_decide_cache', {})
+        if key in cache:
+            return cache[key][0]
+        if not self.feasible(st, z3.Not(c)):
+            r = True
+        elif not self.feasible(st, c):
+            r = False
+        else:
+            r = None
+        # keep the terms alive: z3 recycles AST ids of collected terms
+        cache[key] = (r, c, tuple(st.pc))
+        return r
+
     def feasible(self, st, cond):
         """is pc /\\ cond satisfiable?  unknown counts as feasible."""
         c = simp(cond)
@@ -301,6 +326,11 @@ class Pure(object):
         return self.getattr(base, node.attr)
 
     def getattr(self, base, attr):
+        h = getattr(self.eng, 'on_getattr', None)
+        if h is not None:
+            r = h(self, base, attr)
+            if r is not None:
+                return r
         if isinstance(base, ConstV):
             try:
                 return lift(getattr(base.obj, attr))
@@ -315,6 +345,11 @@ class Pure(object):
 
     def ev_IfExp(self, node):
         c = self.cond(node.test)
+        if self.spec:
+            if self.eng.decide(self.st, z3.Implies(self.guard, c)) is True:
+                return self.ev(node.body)
+            if self.eng.decide(self.st, z3.Implies(self.guard, z3.Not(c))) is True:
+                return self.ev(node.orelse)
         a = self.sub(z3.And(self.guard, c)).ev(node.body)
         b = self.sub(z3.And(self.guard, z3.Not(c))).ev(node.orelse)
         return self.ite(c, a, b)
@@ -513,6 +548,11 @@ class Pure(object):
             if isinstance(s, ast.If):
                 c = self.cond(s.test)
                 rest = stmts[i + 1:]
+                dec = self.eng.decide(self.st, z3.Implies(self.guard, c)) if self.spec else None
+                if dec is True:
+                    return self.run_body(list(s.body) + rest)
+                if dec is None and self.spec and self.eng.decide(self.st, z3.Implies(self.guard, z3.Not(c))) is True:
+                    return self.run_body(list(s.orelse) + rest)
                 pa = Pure(self.eng, self.st, dict(self.env), self.glob, True,
                           z3.And(self.guard, c), self.lineno)
                 pb = Pure(self.eng, self.st, dict(self.env), self.glob, True,
@@ -1390,6 +1430,7 @@ class PathExec(object):
                 env[k] = lift(dv)
         p = Pure(eng, st, env, ct.func.__globals__, True, guard, lineno)
         short = ct.target.split('.')[-1]
+        eng.__dict__.setdefault('used_contracts', set()).add(ct.target)
         if ct.requires is not None:
             r = p.inline_spec(ct.requires, [], {}, extra_env=pick_env(ct.requires, env))
             eng.oblig(st, 'precondition', 'call:%s.requires' % short, p.truthy(r), lineno, guard=guard,
